@@ -5,6 +5,7 @@ import sys
 import gc
 import time
 import random
+import os
 import threading
 import traceback
 from concurrent.futures import Future, Executor, CancelledError, TimeoutError as FTimeout
@@ -560,6 +561,11 @@ def sample_positions(trace, cap, rng, per_site=3):
     return pos
 
 
+# granularity of suspension points used by sweeps that do not ask for one themselves ("line" | "instr");
+# the worker sets it per case (thorough tier runs every depth-1 sweep a second time at instruction granularity)
+DEFAULT_GRAN = ["line"]
+
+
 class Sweep(object):
     """One-preemption sweep.
 
@@ -573,12 +579,12 @@ class Sweep(object):
       oracle(ctx, res, info) -> add violations / keys
     """
 
-    def __init__(self, scn, res, mode, name, gran="line"):
+    def __init__(self, scn, res, mode, name, gran=None):
         self.scn = scn
         self.res = res
         self.mode = mode
         self.name = name
-        self.gran = gran
+        self.gran = gran or DEFAULT_GRAN[0]
         self.hit = 0
         self.missed = 0
         self.overlap = 0
@@ -678,6 +684,10 @@ class Sweep(object):
         trace = self.run_one(None)
         if LM.deadlocks:
             return
+        # depth-1 sweeps are exhaustive over the sampled visits of every site (per_site) in both tiers: a cap made
+        # detection depend on the seed; VERIF_CAP=1 brings the per-case caps back (faster, for development)
+        if not os.environ.get("VERIF_CAP"):
+            cap = None
         positions = sample_positions(trace or [], cap, rng, per_site)
         self.res.count("sweep.trace_len", len(trace or []))
         for p in positions:
